@@ -59,6 +59,9 @@ Fresh(e) ==
    pendEv |-> {},                \* configs received from Events not yet matched
    cancelled |-> {},             \* contexts that were cancelled ("ctx" or a process name)
    monExited |-> FALSE, lateCalls |-> {},
+   ctlQ |-> <<>>, ctlCur |-> <<"", 0>>, answers |-> EmptyFn,   \* EnableVerification requests: queued, being handled, answered
+   vAtCall |-> EmptyFn,          \* g -> number of Verify calls seen when its current call started
+   doneSrcs |-> {},              \* sources whose Done the monitor has received
    sentWerr |-> 0, gotWerr |-> 0, teardown |-> FALSE]
 
 Key(g, n) == <<g, n>>
@@ -114,7 +117,7 @@ OnVerify(s, e) ==
     ELSE IF s.delay /\ ~s.cfgok /\ ~s.enableCalled THEN {V(s, e, "C09_VerifyBeforeEnable")} ELSE {})
 
 OnCall(s, e) ==
-  LET s1 == [s EXCEPT !.curCall = Put(@, e.g, e),
+  LET s1 == [s EXCEPT !.curCall = Put(@, e.g, e), !.vAtCall = Put(@, e.g, s.lastVerify.n),
                       !.enableCalled = @ \/ e.op = "enable",
                       !.lateCalls = IF s.monExited /\ ~s.teardown THEN @ \cup {Key(e.g, e.n)} ELSE @]
   IN IF e.op = "reg"
@@ -132,7 +135,11 @@ ExpectOutcome(s) ==
 
 FinishIteration(s, e) ==
   \* called when the monitor is back at its select (or exits) after a value update
-  IF ~s.mon.active \/ s.mon.kind # "val" THEN R([s EXCEPT !.mon = NoMon], {})
+  IF s.mon.active /\ s.mon.kind = "err"
+  THEN R([s EXCEPT !.mon = NoMon],
+         \* an error reported by a source may be withheld only while the delay is in force and suppression was requested
+         IF s.mon.expect = "submit" /\ ~s.mon.submitted THEN {V(s, e, "C09_SrcErrWithheld")} ELSE {})
+  ELSE IF ~s.mon.active \/ s.mon.kind # "val" THEN R([s EXCEPT !.mon = NoMon], {})
   ELSE LET exp == s.mon.expect
            act == s.mon.outcome
            k == Key(s.mon.g, s.mon.n)
@@ -149,7 +156,10 @@ FinishIteration(s, e) ==
             \cup (IF exp = "store" /\ ~s.delayOn /\ s.mon.verifyCalls = 0 THEN {V(s, e, "C09_NotVerified")} ELSE {})
             \cup (IF s.delayOn /\ s.mon.verifyCalls > 0 THEN {V(s, e, "C09_VerifyDuringDelay")} ELSE {}))
 
-OnMonSelect(s, e) == FinishIteration(s, e)
+OnMonSelect(s, e) ==
+  \* back at the select although every watching source has said Done: the monitor should have exited
+  LET r == FinishIteration(s, e) IN
+  R(r.s, r.v \cup (IF s.mon.active /\ s.mon.kind = "done" /\ s.doneSrcs = 1..s.nsrc THEN {V(s, e, "C08_NoExitAfterAllDone")} ELSE {}))
 
 OnMonRecv(s, e) ==
   IF e.kind = "val"
@@ -163,7 +173,10 @@ OnMonRecv(s, e) ==
   ELSE IF e.kind = "err"
   THEN R([s EXCEPT !.mon = [NoMon EXCEPT !.active = TRUE, !.kind = "err", !.src = e.src,
                                          !.expect = IF s.delayOn /\ s.suppress THEN "maywithhold" ELSE "submit"]], {})
-  ELSE R([s EXCEPT !.mon = [NoMon EXCEPT !.active = TRUE, !.kind = e.kind, !.src = e.src]], {})
+  ELSE R([s EXCEPT !.mon = [NoMon EXCEPT !.active = TRUE, !.kind = e.kind, !.src = e.src],
+                   !.doneSrcs = IF e.kind = "done" THEN @ \cup {e.src} ELSE @,
+                   !.ctlCur = IF e.kind = "ctl" /\ s.ctlQ # <<>> THEN Head(s.ctlQ) ELSE <<"", 0>>,
+                   !.ctlQ = IF e.kind = "ctl" /\ s.ctlQ # <<>> THEN Tail(@) ELSE @], {})
 
 OnMonRejected(s, e) ==
   R([s EXCEPT !.mon.outcome = e.why], IF s.mon.outcome = "store" THEN {V(s, e, "C04_RejectAfterStore")} ELSE {})
@@ -207,8 +220,10 @@ OnMonEnable(s, e) ==
   \* the monitor answered an EnableVerification request
   LET validNow == ValidXY(s.ver.x, s.ver.y) IN
   IF e.noop
-  THEN R(s, IF s.delayOn THEN {V(s, e, "C09_EnableNoopDuringDelay")} ELSE {})
+  THEN R([s EXCEPT !.answers = Put(@, s.ctlCur, [ok |-> TRUE, serial |-> s.ver.serial])],
+         IF s.delayOn THEN {V(s, e, "C09_EnableNoopDuringDelay")} ELSE {})
   ELSE R([s EXCEPT !.delayOn = IF e.ok THEN FALSE ELSE @,
+                   !.answers = Put(@, s.ctlCur, [ok |-> e.ok, serial |-> IF e.ok THEN s.ver.serial ELSE 0]),
                    !.verifiedFrom = IF e.ok /\ s.verifiedFrom < 0 THEN s.ver.serial ELSE @],
          (IF e.ok /\ ~validNow THEN {V(s, e, "C09_EnabledInvalid")} ELSE {})
          \cup (IF ~e.ok /\ validNow THEN {V(s, e, "C09_EnableFailedValid")} ELSE {})
@@ -218,6 +233,10 @@ OnMonExited(s, e) ==
   LET r == FinishIteration(s, e) IN R([r.s EXCEPT !.monExited = TRUE], r.v)
 
 (* ------------------------------ callbacks -------------------------------- *)
+OnApiCtlSent(s, e) ==
+  IF ~Gated(s) THEN R(s, {})
+  ELSE R([s EXCEPT !.ctlQ = Append(@, Key(e.g, Get(s.curCall, e.g, [n |-> 0]).n))], {})
+
 OnApiSubmitSent(s, e) ==
   LET c == Get(s.curCall, e.g, [op |-> "", h |-> 0, n |-> 0, tok |-> 0, tokvalid |-> FALSE]) IN
   IF ~Gated(s) THEN R(s, {})
@@ -365,8 +384,19 @@ OnRet0(s, e) ==
        R(r.s,
          r.v \cup (IF e.res = "nil" /\ e.cfg < 0 THEN {V(s, e, "C09_EnableRet")} ELSE {})
              \cup (IF e.res = "nil" /\ s.delay /\ ~ValidXY(e.cfgx, e.cfgy) THEN {V(s, e, "C09_EnabledInvalid")} ELSE {})
-             \cup (IF e.res = "nil" /\ s.delay /\ Gated(s) /\ s.delayOn /\ ~late THEN {V(s, e, "C09_EnableRet")} ELSE {})
+             \cup (IF e.res = "nil" /\ s.delay /\ Gated(s) /\ s.delayOn /\ ~late /\ s.nsrc > 0 THEN {V(s, e, "C09_EnableRet")} ELSE {})
              \cup (IF e.res = "verify" /\ e.cfg >= 0 THEN {V(s, e, "C09_EnableRet")} ELSE {})
+             \* the answer a caller gets is the monitor's answer to its own request
+             \cup (IF Gated(s) /\ e.res # "ctx" /\ Key(e.g, e.n) \in DOMAIN s.answers /\
+                      LET a == s.answers[Key(e.g, e.n)] IN (a.ok # (e.res = "nil")) \/ (a.ok /\ e.res = "nil" /\ a.serial # e.serial)
+                   THEN {V(s, e, "C09_EnableRet")} ELSE {})
+             \cup (IF Gated(s) /\ s.delay /\ s.nsrc > 0 /\ e.res # "ctx" /\ ~(Key(e.g, e.n) \in DOMAIN s.answers)
+                   THEN {V(s, e, "C09_EnableRet")} ELSE {})
+             \* without a monitor (no watching source) the call itself verifies the installed config
+             \cup (IF s.nsrc = 0 /\ s.delay /\ e.res # "ctx" /\ (e.res = "nil") # ValidXY(s.ver.x, s.ver.y)
+                   THEN {V(s, e, "C09_EnableRet")} ELSE {})
+             \cup (IF s.nsrc = 0 /\ s.delay /\ e.res # "ctx" /\ s.lastVerify.n = Get(s.vAtCall, e.g, 0)
+                   THEN {V(s, e, "C09_NotVerified")} ELSE {})
              \cup (IF e.res = "ctx" /\ ~ctxOk THEN {V(s, e, "C07_CtxNotCancelled")} ELSE {})
              \cup (IF ~(e.res \in {"nil", "verify", "ctx"}) THEN {V(s, e, "C09_EnableRet")} ELSE {}))
   ELSE R(s, {})
@@ -414,6 +444,7 @@ Handle(s, e) ==
     [] e.ev = "mon.enable"      -> OnMonEnable(s, e)
     [] e.ev = "mon.exited"      -> OnMonExited(s, e)
     [] e.ev = "api.submit.sent" -> OnApiSubmitSent(s, e)
+    [] e.ev = "api.ctl.sent"    -> OnApiCtlSent(s, e)
     [] e.ev = "cb.idle"         -> OnCbIdle(s, e)
     [] e.ev = "cb.recv"         -> OnCbRecv(s, e)
     [] e.ev = "cbenter"         -> OnCbEnter(s, e)
